@@ -23,6 +23,10 @@ fn main() {
             let cases: u64 = args[3].parse().unwrap_or(1);
             std::process::exit(props::c06::worker_main(seed, cases, &args[4]));
         }
+        "c20-worker" => {
+            let seed: u64 = args[2].parse().unwrap_or(1);
+            std::process::exit(props::c20::worker_main(seed, &args[3]));
+        }
         "c06-text" => {
             std::process::exit(props::c06::text_main(&args[2]));
         }
